@@ -11,6 +11,7 @@ from .session import BUILTIN_EXC_PARENTS
 from .srcmodel import AnalysisError, FuncInfo, Model, norm, walk_no_nested
 
 INF = float("inf")
+_ASSUMER = object.__new__(FactFlow)     # assume() needs no per-function state
 
 
 @dataclass(frozen=True)
@@ -91,6 +92,9 @@ class MayRaise:
         self.recursion_keys: Set[Tuple[str, Optional[str]]] = set()
         self._site_seen: Set[Tuple[str, int, str]] = set()
         self.changed = False
+        self._done: Set = set()
+        self._alias_cache: Dict = {}
+        self._exact_cache: Dict = {}
 
     # ------------------------------------------------------------------ API
     def escapes(self, qual: str, self_cls: Optional[str] = None) -> FrozenSet[Esc]:
@@ -101,18 +105,30 @@ class MayRaise:
         return self.summ[key]
 
     def fixpoint(self) -> None:
-        for _round in range(40):
-            self.changed = False
-            for key in list(self.summ):
+        """Worklist fixpoint: a summary is recomputed when it is new or a callee's summary changed."""
+        for _outer in range(10):
+            work = [k for k in self.summ if k not in self._done]
+            guard = 0
+            while work:
+                guard += 1
+                if guard > 20000:
+                    raise AnalysisError("may-raise fixpoint did not converge")
+                key = work.pop()
+                before = set(self.summ)
                 new = self.compute(key)
+                self._done.add(key)
+                for k in set(self.summ) - before:
+                    work.append(k)
                 if new != self.summ[key]:
                     self.summ[key] = new
-                    self.changed = True
-            if not self.changed:
-                # recursion: strongly connected components with a cycle
-                added = self.add_recursion()
-                if not added:
-                    return
+                    for caller, callees in self.edges.items():
+                        if key in callees and caller not in work:
+                            work.append(caller)
+            added = self.add_recursion()
+            if not added:
+                return
+            for k in self.recursion_keys:
+                self._done.discard(k)
         raise AnalysisError("may-raise fixpoint did not converge")
 
     def add_recursion(self) -> bool:
@@ -631,8 +647,8 @@ class MayRaise:
                 r = (-INF, INF)
             return (max(r[0], lo), min(r[1], hi))
         if isinstance(e, ast.IfExp):
-            f_t = facts | frozenset(FactFlow.assume(self.flow_for(fi), e.test, True))
-            f_f = facts | frozenset(FactFlow.assume(self.flow_for(fi), e.test, False))
+            f_t = facts | frozenset(_ASSUMER.assume(e.test, True))
+            f_f = facts | frozenset(_ASSUMER.assume(e.test, False))
             a = self.ival(e.body, f_t, fi)
             b = self.ival(e.orelse, f_f, fi)
             return (min(a[0], b[0]), max(a[1], b[1]))
@@ -645,6 +661,12 @@ class MayRaise:
         """Concrete class of a receiver that is a local only ever bound to constructor calls of one class."""
         if not isinstance(recv, ast.Name):
             return None
+        ck = (fi.qualname, recv.id)
+        if ck not in self._exact_cache:
+            self._exact_cache[ck] = self._exact_class_uncached(recv, fi)
+        return self._exact_cache[ck]
+
+    def _exact_class_uncached(self, recv: ast.Name, fi: FuncInfo) -> Optional[str]:
         cls: Set[str] = set()
         for n in walk_no_nested(fi.node):
             if isinstance(n, (ast.Assign, ast.AnnAssign)) and n.value is not None:
@@ -782,6 +804,15 @@ class MayRaise:
         """A local that is only ever a view/slice/alias of one other expression."""
         if depth > 5:
             return None
+        ck = (fi.qualname, name)
+        if ck in self._alias_cache:
+            return self._alias_cache[ck]
+        self._alias_cache[ck] = None
+        res = self._alias_root_uncached(name, fi)
+        self._alias_cache[ck] = res
+        return res
+
+    def _alias_root_uncached(self, name: str, fi: FuncInfo) -> Optional[ast.expr]:
         roots = []
         for n in walk_no_nested(fi.node):
             if isinstance(n, (ast.Assign, ast.AnnAssign)) and n.value is not None:
@@ -796,8 +827,8 @@ class MayRaise:
                         else:
                             break
                     roots.append(v)
-        if not roots:
-            return None
+        if not roots or not all(isinstance(r, (ast.Name, ast.Attribute)) for r in roots):
+            return None          # bound to something that is not a plain view/alias (a constructor call, ...)
         txt = {norm(r) for r in roots if not (isinstance(r, ast.Name) and r.id == name)}
         if len(txt) != 1:
             return None
